@@ -274,6 +274,11 @@ func (p *poller) readWriteLoop() {
 							c.onConnected = nil
 							c.resetRead()
 						}
+						// EPOLLONESHOT: a pure writing event is not followed by the
+						// reading handler which re-arms the fd, re-arm it here.
+						if isOneshot && ev.Events&epollEventsRead == 0 {
+							c.ResetPollerEvent()
+						}
 					}
 
 					if ev.Events&epollEventsRead != 0 {
